@@ -1,0 +1,29 @@
+// SPDX-FileCopyrightText: 2020-present Open Networking Foundation <info@opennetworking.org>
+//
+// SPDX-License-Identifier: Apache-2.0
+
+//go:build verif
+// +build verif
+
+package configuration
+
+import (
+	"github.com/onosproject/onos-config/pkg/southbound/gnmi"
+	"github.com/onosproject/onos-config/pkg/store/topo"
+	"github.com/onosproject/onos-config/pkg/store/v2/configuration"
+)
+
+// NewReconcilerForVerif builds the configuration reconciler for the external verification harness
+func NewReconcilerForVerif(topo topo.Store, conns gnmi.ConnManager, configurations configuration.Store) *Reconciler {
+	return &Reconciler{conns: conns, topo: topo, configurations: configurations}
+}
+
+// NewWatcherForVerif builds the configuration store watcher
+func NewWatcherForVerif(configurations configuration.Store) *Watcher {
+	return &Watcher{configurations: configurations}
+}
+
+// NewTopoWatcherForVerif builds the topo watcher of the configuration controller
+func NewTopoWatcherForVerif(topo topo.Store) *TopoWatcher {
+	return &TopoWatcher{topo: topo}
+}
